@@ -58,8 +58,9 @@ def main():
                     fired = pr['rc'] == 1 and pr['violations']
                     named = (not exp) or any(any(('rule=' + e) in v or e in v for e in exp) for v in pr['violations'])
                     okk = fired and named
-                    print('%s %-40s %s rc=%d %d violation(s)%s%s' % ('CAUGHT ' if okk else 'MISSED ', name, p, pr['rc'], len(pr['violations']),
-                          '' if named else ' (expected rule %s not named)' % exp, ('' if not run_tests else ' tests_pass=%s' % r.get('tests_pass'))))
+                    rules = sorted({m.group(1) for v in pr['violations'] for m in [re.search(r'rule=(\S+)', v)] if m})
+                    print('%s %-40s %s rc=%d %d violation(s)%s%s rules=%s' % ('CAUGHT ' if okk else 'MISSED ', name, p, pr['rc'], len(pr['violations']),
+                          '' if named else ' (expected rule %s not named)' % exp, ('' if not run_tests else ' tests_pass=%s' % r.get('tests_pass')), ','.join(rules)))
                     if not okk:
                         bad += 1
                         for v in pr['violations'][:3]: print('         ', v[:300])
